@@ -168,4 +168,85 @@ def run(src, tier, seed):
                 'simplified away by preprocessing, or not Boolean), instead of its truth value in the model' % extra[0])
     else:
         res.ok(r, 'vocabulary %s' % words)
+    # ---- the concrete infinitesimal: producer and consumer agree on its upper bound (two independent seeds removed the clamp)
+    r = res.rule('delta-bound-contract', 'Simplex::computeDelta returns a literal bound U or a value known to be at most U on that path (an earlier `x > U` test returned U), and '
+                 'LASolver::collectEqualitiesFor, which decides which interface terms may coincide in the model, cuts off at ratio < -U with the same U', floor=1)
+    delta_contract(fx, res, r)
     return res
+
+
+def num_lit(e):
+    e = see_through(e)
+    while isinstance(e, dict) and e.get('k') in ('new', 'init') and len(e.get('a') or e.get('e') or []) == 1:
+        e = see_through((e.get('a') or e.get('e'))[0])
+    if isinstance(e, dict) and e.get('k') == 'un' and e.get('op') == '-':
+        v = num_lit(e['e'])
+        return -v if v is not None else None
+    if isinstance(e, dict) and e.get('k') == 'lit' and isinstance(e.get('v'), (int, float)) and not isinstance(e.get('v'), bool):
+        return e['v']
+    return None
+
+
+def delta_contract(fx, res, r):
+    cd = fx.func('opensmt::Simplex::computeDelta')
+    top = [s_ for s_ in cd['body']['c'] if isinstance(s_, dict)]
+    # early returns of the form  if (... || x > U) return U;
+    clamps = {}      # variable -> U
+    for s_ in top:
+        if s_.get('k') == 'if' and not s_.get('as'):
+            rets = [x for x in walk(s_['then']) if x.get('k') == 'ret']
+            if len(rets) == 1 and num_lit(rets[0].get('e')) is not None:
+                U = num_lit(rets[0]['e'])
+                for c in walk(s_['cond']):
+                    if c.get('k') in ('bin', 'call') and c.get('op') == '>':
+                        l_ = c['l'] if c.get('k') == 'bin' else (c.get('recv') if c.get('recv') is not None else (c.get('a') or [None])[0])
+                        r_ = c['r'] if c.get('k') == 'bin' else ((c.get('a') or [None])[0] if c.get('recv') is not None else (c.get('a') or [None, None])[1])
+                        if path_of(l_) and num_lit(r_) == U:
+                            clamps[path_of(l_).split('.')[0]] = U
+    final = [s_ for s_ in top if s_.get('k') == 'ret']
+    if not final:
+        raise AnalysisBroken('Simplex::computeDelta: final return not found')
+    U = None
+    problems = []
+    for rt in [x for x in walk(cd['body']) if x.get('k') == 'ret' and not x.get('as')]:
+        v = num_lit(rt.get('e'))
+        if v is not None:
+            U = v if U is None else max(U, v)
+            continue
+        # value derived from a clamped variable, possibly divided by a constant >= 1
+        e = see_through(rt['e'])
+        div = 1
+        if isinstance(e, dict) and e.get('k') in ('bin', 'call') and e.get('op') == '/':
+            num = e['l'] if e.get('k') == 'bin' else (e.get('recv') if e.get('recv') is not None else e['a'][0])
+            den = e['r'] if e.get('k') == 'bin' else (e['a'][0] if e.get('recv') is not None else e['a'][1])
+            div = num_lit(den)
+            e = see_through(num)
+        base = None
+        for x in walk(e):
+            if x.get('k') == 'ref' and x.get('n') in clamps:
+                base = x['n']
+        if base is None or div is None or div < 1:
+            problems.append('the value returned at line %s is not bounded: no earlier `x > U` test returns U for it' % rt.get('ln'))
+        else:
+            U = clamps[base] if U is None else max(U, clamps[base])
+    if problems or U is None:
+        res.bad(r, 'delta-unbounded', fx.loc(cd), 'Simplex::computeDelta: %s; LASolver::collectEqualitiesFor assumes 0 < delta <= 1 when it decides which interface terms may get the same value, '
+                'so with a larger delta two terms the e-graph keeps apart can coincide and the model falsifies an assertion' % ('; '.join(problems) or 'no bound found'))
+        return
+    res.ok(r, 'computeDelta returns at most %s on every path' % U)
+    ce = fx.func('opensmt::LASolver::collectEqualitiesFor')
+    cuts = []
+    for n in walk(ce['body']):
+        if n.get('k') == 'if' and not n.get('as') and any(x.get('k') == 'continue' for x in walk(n['then'])):
+            for c in walk(n['cond']):
+                if c.get('k') in ('bin', 'call') and c.get('op') == '<':
+                    r_ = c['r'] if c.get('k') == 'bin' else ((c.get('a') or [None])[0] if c.get('recv') is not None else (c.get('a') or [None, None])[1])
+                    v = num_lit(r_)
+                    if v is not None and v < 0:
+                        cuts.append(v)
+    if not cuts:
+        raise AnalysisBroken('LASolver::collectEqualitiesFor: the cut-off `ratio < -bound` was not found')
+    if all(-c >= U for c in cuts):
+        res.ok(r, 'collectEqualitiesFor considers every delta up to %s (cut-off %s)' % (max(-c for c in cuts), cuts))
+    else:
+        res.bad(r, 'delta-bound-mismatch', fx.loc(ce), 'LASolver::collectEqualitiesFor ignores coincidences for delta above %s but Simplex::computeDelta can return up to %s' % (min(-c for c in cuts), U))
